@@ -5,4 +5,16 @@ pub struct NamingActor {}
 #[verifier::external_body]
 #[verifier::reject_recursive_types(A)]
 pub struct Addr<A> { inner: core::marker::PhantomData<A> }
+
+/// A-CLOCK: the wall clock reads later than 2020-09-13 (so `now_millis() - 15000` does not wrap)
+#[verifier::external_body]
+pub fn now_millis() -> (r: u64) ensures r >= 1_600_000_000_000 { unimplemented!() }
+
+/// T16 stand-in for the `values_mut()` loop of InnerNodeManage::check_node_status (no vstd model of BTreeMap::values_mut):
+/// ASSUMED: the loop changes only `status` and `client_set` of the records — no record is added, removed or re-keyed.
+#[verifier::external_body]
+pub fn vx_check_nodes_loop(all_nodes: &mut BTreeMap<u64, ClusterInnerNode>, naming_actor: &Option<Addr<NamingActor>>, timeout: u64)
+    ensures final(all_nodes)@.dom() == old(all_nodes)@.dom(),
+        forall|k: u64| #[trigger] old(all_nodes)@.contains_key(k) ==> final(all_nodes)@[k].id == old(all_nodes)@[k].id && final(all_nodes)@[k].is_local == old(all_nodes)@[k].is_local,
+{ unimplemented!() }
 } // verus!
